@@ -507,7 +507,7 @@ end BB.C07
 
 namespace BB.C07
 open BB
-open BB.G12 (SameSR SameChannels SameChannelSet Filled SubsAnswer AddOp addAll)
+open BB.G12 (SameSR SameChannels SameChannelSet Filled SubsAnswer SubsSound NoHardError AddOp addAll)
 
 /-- **clause 1, for every sequence, no side hypotheses** ("checkConsistency returns True exactly when
     positions 1..N are all filled with no gap (in whatever order they were added), all entries have
@@ -545,23 +545,28 @@ theorem checkConsistency_built_iff_spelled_out (s : Sequence) (hs : Sequence.Api
   rw [checkConsistency_built_iff s hs hSR, G12.filled_iff_positions (G12.apiBuilt_data_wf hs)]
   rfl
 
-/-- **"... and False otherwise", never an error**: an API-built sequence with a sample rate whose
-    stored subsequences all answer their own `channels` query (`SubsAnswer`; see
-    `subsequence_answers_iff`: each is itself consistent and has its position 1 filled) gets a
-    boolean from `checkConsistency` - neither of the two `mapM`s can fail, because `addElement`
-    validated every stored element. -/
+/-- **"... and False otherwise", never an error** (after the repair of `checkConsistency`: a stored
+    subsequence that is itself inconsistent makes the answer False instead of raising
+    SequenceConsistencyError): an API-built sequence with a sample rate whose stored subsequences
+    each have a sample rate and at least one element (`SubsSound`) gets a boolean from
+    `checkConsistency` - neither of the two loops can fail: `addElement` validated every stored
+    element, and the only exception a `channels` query of such a subsequence can raise is
+    SequenceConsistencyError, which is caught.  What can still raise is named by
+    `checkConsistency_built_raise_source`. -/
 theorem checkConsistency_built_never_raises (s : Sequence) (hs : Sequence.ApiBuilt s)
-    (hSR : Dict.has s.awgspecs "SR" = true) (ha : SubsAnswer s) :
+    (hSR : Dict.has s.awgspecs "SR" = true) (ha : SubsSound s) :
     s.checkConsistency = .ok true ∨ s.checkConsistency = .ok false := by
-  obtain ⟨b, hb⟩ := G12.checkConsistency_ok_of_subsAnswer (G11.apiBuilt_innerValidated hs) hSR ha
+  have hv := G11.apiBuilt_innerValidated hs
+  obtain ⟨b, hb⟩ := G12.checkConsistency_ok_of_noHardError hv hSR (G12.noHardError_of_subsSound hv ha)
   cases b
   · exact .inr hb
   · exact .inl hb
 
 /-- **"... and False otherwise"**: under the same hypotheses `checkConsistency` returns False exactly
-    when one of the three conditions fails -/
+    when one of the three conditions fails (an inconsistent stored subsequence answers no channel
+    list, so it falsifies the channel condition) -/
 theorem checkConsistency_built_false_iff (s : Sequence) (hs : Sequence.ApiBuilt s)
-    (hSR : Dict.has s.awgspecs "SR" = true) (ha : SubsAnswer s) :
+    (hSR : Dict.has s.awgspecs "SR" = true) (ha : SubsSound s) :
     s.checkConsistency = .ok false ↔ ¬ (SameSR s ∧ SameChannelSet s ∧ Filled s) := by
   rw [← checkConsistency_built_iff s hs hSR]
   rcases checkConsistency_built_never_raises s hs hSR ha with h | h <;> simp [h]
@@ -570,8 +575,11 @@ theorem checkConsistency_built_false_iff (s : Sequence) (hs : Sequence.ApiBuilt 
     that holds no subsequence gets True or False, never an exception -/
 theorem checkConsistency_built_elements_never_raises (s : Sequence) (hs : Sequence.ApiBuilt s)
     (hSR : Dict.has s.awgspecs "SR" = true) (hel : ∀ x ∈ s.data, ∃ e, x.2 = .el e) :
-    s.checkConsistency = .ok true ∨ s.checkConsistency = .ok false :=
-  checkConsistency_built_never_raises s hs hSR (G12.subsAnswer_of_elementsOnly hel)
+    s.checkConsistency = .ok true ∨ s.checkConsistency = .ok false := by
+  apply checkConsistency_built_never_raises s hs hSR
+  intro x hx sub hx2
+  obtain ⟨e, he⟩ := hel x hx
+  rw [he] at hx2; cases hx2
 
 /-- what "a stored subsequence answers its `channels` query" means: it is consistent itself and
     has an element at position 1, whose channels it reports -/
@@ -580,26 +588,43 @@ theorem subsequence_answers_iff (sub : SubSeq) (chs : List Chan) :
       sub.checkConsistency = .ok true ∧ ∃ e, Dict.get? sub.data 1 = some e ∧ e.channels = chs :=
   G12.subChannels_ok_iff sub chs
 
-/-- **exactly when `checkConsistency` raises on an API-built sequence with a sample rate**: the
-    entries agree on the sample rate (otherwise False is returned before the channels are looked at)
-    and some stored subsequence does not answer its `channels` query -/
+/-- **an inconsistent stored subsequence gives False** (the repaired behaviour, for every sequence):
+    if a sample rate is set, the entries agree on the sample rate, and the first `channels` query
+    that fails (in store order) raises SequenceConsistencyError, `checkConsistency` returns False -/
+theorem checkConsistency_false_of_inconsistent_subsequence (s : Sequence) (srs : List Val)
+    (hSR : Dict.has s.awgspecs "SR" = true)
+    (h1 : (Dict.vals s.data).mapM Entry.getSR = .ok srs) (hs : Element.allSame srs = true)
+    (h2 : (Dict.vals s.data).mapM Entry.channels = .error .consistency) :
+    s.checkConsistency = .ok false := by
+  rw [G12.checkConsistency_of_channels_error s srs .consistency hSR h1 hs h2]
+  rfl
+
+/-- **exactly when `checkConsistency` still raises on an API-built sequence with a sample rate**:
+    the entries agree on the sample rate (otherwise False is returned before the channels are looked
+    at) and the first `channels` query that fails, in store order, raises something other than
+    SequenceConsistencyError -/
 theorem checkConsistency_built_raises_iff (s : Sequence) (hs : Sequence.ApiBuilt s)
     (hSR : Dict.has s.awgspecs "SR" = true) :
-    (∃ er, s.checkConsistency = .error er) ↔ SameSR s ∧ ¬ SubsAnswer s :=
+    (∃ er, s.checkConsistency = .error er) ↔
+      SameSR s ∧ ∃ er, er ≠ .consistency ∧ (Dict.vals s.data).mapM Entry.channels = .error er :=
   G12.checkConsistency_raises_iff (G11.apiBuilt_innerValidated hs) hSR
 
-/-- ... and the exception is the one that subsequence's `channels` query raised
-    (SequenceConsistencyError for an inconsistent subsequence, KeyError for one without a sample
-    rate or without position 1) -/
+/-- **what can still raise**: on an API-built sequence with a sample rate the only exception of
+    `checkConsistency` is KeyError, and it comes from a stored subsequence that has no sample rate
+    of its own or holds no element at all (its `channels` query raises that KeyError) -/
 theorem checkConsistency_built_raise_source (s : Sequence) (hs : Sequence.ApiBuilt s)
     (hSR : Dict.has s.awgspecs "SR" = true) (er : Err) (h : s.checkConsistency = .error er) :
-    ∃ p sub, (p, Entry.sub sub) ∈ s.data ∧ sub.channels = .error er := by
-  rcases G12.checkConsistency_cases (G11.apiBuilt_innerValidated hs) hSR with
-    ⟨b, hb⟩ | ⟨_, x, hx, sub, er', hx2, herr, hcc⟩
+    er = .key ∧ ∃ p sub, (p, Entry.sub sub) ∈ s.data ∧ sub.channels = .error .key ∧
+      (Dict.has sub.awgspecs "SR" = false ∨ sub.data = []) := by
+  have hv := G11.apiBuilt_innerValidated hs
+  rcases G12.checkConsistency_cases hv hSR with ⟨b, hb⟩ | ⟨_, x, hx, sub, er', hx2, herr, hne, hcc⟩
   · rw [hb] at h; cases h
   · rw [hcc] at h
     cases h
-    exact ⟨x.1, sub, by rw [← hx2]; exact hx, herr⟩
+    rcases G12.subChannels_error_cases sub ((hv x hx).2 sub hx2) er herr with hc | ⟨hk, hwhy⟩
+    · exact absurd hc hne
+    · subst hk
+      exact ⟨rfl, x.1, sub, by rw [← hx2]; exact hx, herr, hwhy⟩
 
 /-- **the empty sequence, as the code treats it**: with a sample rate set, an empty store counts as
     consistent (the code substitutes `[None]` / `[1]` for the empty lists) -/
@@ -612,28 +637,30 @@ theorem checkConsistency_empty (s : Sequence) (hSR : Dict.has s.awgspecs "SR" = 
   · unfold Filled; rw [h]; exact List.Perm.refl _
 
 /-- **"in whatever order they were added", on the store**: two sequences with sample rates whose
-    stores hold the same (position, entry) pairs in different orders get the same verdict - both
-    True, both False, or both an exception -/
+    stores hold the same (position, entry) pairs in different orders give the same answer, provided
+    the stored subsequences each have a sample rate and at least one element.  (Without that proviso
+    the first failing `channels` query in store order decides between False and KeyError, see
+    `checkConsistency_order_matters_with_empty_subsequence`; the answer True is order-independent
+    for every sequence by `checkConsistency_true_iff_conditions`.) -/
 theorem checkConsistency_store_order_irrelevant (a b : Sequence) (ha : Sequence.ApiBuilt a)
-    (hp : a.data.Perm b.data) (hSRa : Dict.has a.awgspecs "SR" = true) (hSRb : Dict.has b.awgspecs "SR" = true) :
-    (a.checkConsistency = .ok true ↔ b.checkConsistency = .ok true) ∧
-    (a.checkConsistency = .ok false ↔ b.checkConsistency = .ok false) ∧
-    ((∃ er, a.checkConsistency = .error er) ↔ ∃ er, b.checkConsistency = .error er) :=
+    (hp : a.data.Perm b.data) (hSRa : Dict.has a.awgspecs "SR" = true) (hSRb : Dict.has b.awgspecs "SR" = true)
+    (hsound : SubsSound a) :
+    a.checkConsistency = b.checkConsistency :=
   G12.checkConsistency_perm hp (G11.apiBuilt_innerValidated ha) hSRa hSRb
+    (G12.noHardError_of_subsSound (G11.apiBuilt_innerValidated ha) hsound)
 
 /-- **"in whatever order they were added", on API histories**: starting from any API-built sequence
     with a sample rate, two lists of `addElement` / `addSubSequence` calls (`AddOp`; each accepted or
     refused) that are permutations of each other and address pairwise distinct positions lead to
-    the same verdict of `checkConsistency`.  (With a position addressed twice the later call
-    overwrites the earlier one, so there the order does matter.) -/
+    the same answer of `checkConsistency` - provided every subsequence stored in the end has a sample
+    rate and at least one element.  (With a position addressed twice the later call overwrites the
+    earlier one, so there the order does matter.) -/
 theorem checkConsistency_add_order_irrelevant (s : Sequence) (hs : Sequence.ApiBuilt s)
     (hSR : Dict.has s.awgspecs "SR" = true) (ops ops' : List AddOp) (hb : ∀ op ∈ ops, op.Built)
-    (hp : ops.Perm ops') (hnd : (ops.map AddOp.pos).Nodup) :
-    ((addAll s ops).checkConsistency = .ok true ↔ (addAll s ops').checkConsistency = .ok true) ∧
-    ((addAll s ops).checkConsistency = .ok false ↔ (addAll s ops').checkConsistency = .ok false) ∧
-    ((∃ er, (addAll s ops).checkConsistency = .error er) ↔ ∃ er, (addAll s ops').checkConsistency = .error er) := by
+    (hp : ops.Perm ops') (hnd : (ops.map AddOp.pos).Nodup) (hsound : SubsSound (addAll s ops)) :
+    (addAll s ops).checkConsistency = (addAll s ops').checkConsistency := by
   apply checkConsistency_store_order_irrelevant _ _ (G12.addAll_built s hs ops hb)
-    (G12.addAll_data_perm s (G12.apiBuilt_data_wf hs) hp hnd)
+    (G12.addAll_data_perm s (G12.apiBuilt_data_wf hs) hp hnd) _ _ hsound
   · rw [G12.addAll_specs]; exact hSR
   · rw [G12.addAll_specs]; exact hSR
 
@@ -691,21 +718,41 @@ example : g12Ops21.Perm g12Ops12 ∧ (g12Ops21.map AddOp.pos).Nodup ∧
     Dict.keys (addAll g12Base g12Ops21).data = [2, 1] ∧ Dict.keys (addAll g12Base g12Ops12).data = [1, 2] := by
   refine ⟨List.Perm.swap _ _ _, by decide, by decide +kernel, by decide +kernel⟩
 
-/-- **the property's "False otherwise" is not the whole story** (witness): an API-built sequence
-    with a sample rate on which `checkConsistency` raises SequenceConsistencyError instead of
-    returning False - it stores (at position 1) a subsequence that has a hole, and the loop over
-    `elem.channels` asks that subsequence for its channels.  `checkConsistency_built_raises_iff`
-    says this is the only way. -/
-theorem checkConsistency_can_raise_on_built :
-    ∃ s : Sequence, Sequence.ApiBuilt s ∧ Dict.has s.awgspecs "SR" = true ∧
-      s.checkConsistency = .error .consistency :=
-  ⟨addAll g12Base [.sub 1 g12SubHole],
+/-- **the former counterexample** (before the repair `checkConsistency` raised
+    SequenceConsistencyError here): an API-built sequence with a sample rate that stores (at
+    position 1) a subsequence with a hole now gets False -/
+theorem checkConsistency_inconsistent_subsequence_is_false :
+    ∃ s : Sequence, Sequence.ApiBuilt s ∧ Dict.has s.awgspecs "SR" = true ∧ SubsSound s ∧
+      s.checkConsistency = .ok false := by
+  refine ⟨addAll g12Base [.sub 1 g12SubHole],
     G12.addAll_built _ g12Base_built _ (by
       intro op hop
       simp only [List.mem_cons, List.not_mem_nil, or_false] at hop
       subst hop
       exact g12SubHole_built),
-    by decide +kernel, by decide +kernel⟩
+    by decide +kernel, ?_, by decide +kernel⟩
+  intro x hx sub hx2
+  have hall : (addAll g12Base [.sub 1 g12SubHole]).data.all (fun x => match x.2 with
+      | .el _ => true
+      | .sub q => Dict.has q.awgspecs "SR" && !q.data.isEmpty) = true := by decide +kernel
+  have hx' := List.all_eq_true.mp hall x hx
+  rw [hx2] at hx'
+  simp only [Bool.and_eq_true, Bool.not_eq_eq_eq_not, Bool.not_true] at hx'
+  refine ⟨hx'.1, fun hnil => ?_⟩
+  rw [hnil] at hx'
+  simp at hx'
+
+/-- an empty sequence with sample rate 10, as a subsequence argument -/
+def g12SubEmpty : Sequence := g12Base
+
+/-- **what can still raise, and that the store order then matters** (witness): an API-built parent
+    with sample rate 10 storing a subsequence with a hole and an *empty* subsequence: with the
+    inconsistent one first the answer is False, with the empty one first `checkConsistency` raises
+    KeyError (the empty subsequence's `channels` query looks up its position 1) -/
+theorem checkConsistency_order_matters_with_empty_subsequence :
+    (addAll g12Base [.sub 1 g12SubHole, .sub 2 g12SubEmpty]).checkConsistency = .ok false ∧
+    (addAll g12Base [.sub 2 g12SubEmpty, .sub 1 g12SubHole]).checkConsistency = .error .key := by
+  constructor <;> decide +kernel
 
 /-- non-vacuity of `subsequence_answers_iff` / `SubsAnswer`: a stored consistent subsequence answers -/
 example : (addAll g12Base [.sub 1 (addAll g12Base g12Ops21)]).checkConsistency = .ok true := by
